@@ -149,7 +149,7 @@ def rand_spec(R, examples_first=None):
 def generate(rng, tier, count):
     names = list(RUN.EXAMPLES)
     for i in range(count):
-        if i % 3 == 0:
+        if rng.random() < 0.34:
             spec = rand_spec(rng, examples_first=rng.choice(names))
         else:
             spec = rand_spec(rng)
